@@ -635,13 +635,18 @@ func builtinArrayReduce(call FunctionCall) Value {
 		if length > 0 || initial {
 			var accumulator Value
 			if !initial {
+				found := false
 				for ; index < length; index++ {
 					if key := arrayIndexToString(index); thisObject.hasProperty(key) {
 						accumulator = thisObject.get(key)
 						index++
+						found = true
 
 						break
 					}
+				}
+				if !found {
+					panic(call.runtime.panicTypeError("Array.reduce of empty array with no initial value"))
 				}
 			} else {
 				accumulator = start
@@ -668,12 +673,17 @@ func builtinArrayReduceRight(call FunctionCall) Value {
 			index := length - 1
 			var accumulator Value
 			if !initial {
+				found := false
 				for ; index >= 0; index-- {
 					if key := arrayIndexToString(index); thisObject.hasProperty(key) {
 						accumulator = thisObject.get(key)
 						index--
+						found = true
 						break
 					}
+				}
+				if !found {
+					panic(call.runtime.panicTypeError("Array.reduceRight of empty array with no initial value"))
 				}
 			} else {
 				accumulator = start
